@@ -167,18 +167,21 @@ def text_scan(files):
     return bad
 
 
-def lean_sources():
-    out = []
-    for root, _, files in os.walk(LEAN):
-        if ".lake" in root:
+def lean_sources(props_files=None, extra_roots=()):
+    """The .lean files transitively imported (within this project) by the given files."""
+    todo = [os.path.join(LEAN, p) for p in (props_files or [])] + [os.path.join(LEAN, r) for r in extra_roots]
+    seen = []
+    while todo:
+        f = todo.pop()
+        if f in seen or not os.path.exists(f):
             continue
-        for f in files:
-            if f.endswith(".lean"):
-                out.append(os.path.join(root, f))
-    return out
+        seen.append(f)
+        for m in re.finditer(r"^import\s+((?:Invoke|Driver)[\w.]*)", open(f).read(), flags=re.M):
+            todo.append(os.path.join(LEAN, m.group(1).replace(".", "/") + ".lean"))
+    return seen
 
 
-def audit(pid, props_files):
+def audit(pid, props_files, driver_roots=()):
     """#print axioms for every theorem of the property files.  Returns dict."""
     names = []
     examples = 0
@@ -211,7 +214,7 @@ def audit(pid, props_files):
             extra = set(axioms[n]) - OK_AXIOMS
             if extra:
                 problems.append("%s uses %s" % (n, sorted(extra)))
-    problems += text_scan(lean_sources())
+    problems += text_scan(lean_sources(props_files, driver_roots))
     return {"theorems": names, "examples": examples, "axioms": axioms, "problems": problems}
 
 
